@@ -67,7 +67,7 @@ def handleProgram (stream : String) (p : Sexp) (out : Sexp) : CaseResult :=
   | none => .bad s!"undecodable program {p}"
   | some (externErr, blocks) =>
     let (mOut, mOk) := modelProgram externErr blocks
-    let agree := mOut == out
+    let agree := agreeOut externErr blocks mOut mOk out
     -- the Bool specification evaluated on the implementation's graphs
     let (specOk, implEdges) : Bool × List Edge := match out with
       | .list (.atom "ok" :: gs) =>
